@@ -69,6 +69,12 @@ class AddExtension(StreamerExtension):
 
         pattern = snax_stride_patterns[0]
         assert isinstance(pattern, StridePattern)
+        second_pattern = snax_stride_patterns[1]
+        assert isinstance(second_pattern, StridePattern)
+        if second_pattern.canonicalize() != pattern.canonicalize():
+            # the single reader fetches both inputs with one pattern (the second input at a fixed distance
+            # behind the first), so a second input that needs a pattern of its own can not be streamed
+            raise RuntimeError("Add extension needs both inputs to be accessed with the same stride pattern")
         new_stride_pattern = StridePattern(
             [2] + [x.data for x in pattern.upper_bounds],
             [512]
